@@ -3,47 +3,58 @@
 (* Mechanism model of cola's structural linear-algebra rules.              *)
 (*                                                                         *)
 (* One operator per dispatch rule of                                       *)
-(*   cola/linalg/inverse/inv.py        (Inv...,   entry point InvRule)     *)
-(*   cola/linalg/logdet/logdet.py      (Det...,   entry point DetRule)     *)
-(*   cola/linalg/trace/diag_trace.py   (Diag..., Trace...)                 *)
+(*   cola/linalg/inverse/inv.py        (Inv..,  entry point InvRule)       *)
+(*   cola/linalg/logdet/logdet.py      (Det..,  entry point DetRule)       *)
+(*   cola/linalg/trace/diag_trace.py   (DiagRule, TraceRule)               *)
+(*   cola/linalg/decompositions/decompositions.py  (PluRule, CholRule)     *)
 (* transcribed from the code at HEAD for the default algorithm Auto().     *)
 (* Every rule returns a record                                             *)
 (*    [calls |-> <<names of the plum signatures resolved, in call order>>, *)
 (*     exc   |-> "none" or the class name of the exception that escapes,   *)
-(*     val   |-> the value returned (a result tree / rational / column)]   *)
-(* so that the *selection* among rules, the *order* of the recursive calls *)
-(* and the *refusals* (assertions, crashes) are part of the model, not     *)
-(* only the algebraic identity.  Rule names are literally the strings the  *)
-(* conformance harness derives from the signature plum resolves:           *)
-(*    f(Type1,Type2,...) followed by "?" when the signature is conditional *)
+(*     val   |-> the value returned (result tree / rational / column)]     *)
+(* so the *selection* among rules, the *order* of the recursive calls and  *)
+(* the *refusals* (assertions, crashes) are part of the model, not only    *)
+(* the algebraic identity.  Rule names are literally the strings the       *)
+(* conformance harness derives from the signature that plum resolves:      *)
+(*    f(Type1,Type2,...)   followed by "?" if the signature is conditional *)
 (*                                                                         *)
-(* Selection (plum fork, see Dispatch.tla): a rule typed on a proper       *)
-(* operator class and (LinearOperator, Auto) are incomparable, precedence  *)
-(* 0 beats the base cases' -1; a conditional rule only matches when its    *)
-(* condition holds.  The conditional inv rule (LinearOperator, Algorithm)  *)
-(* "A.isa(Unitary) -> Unitary(A.H)" is *less specific* than                *)
-(* (LinearOperator, Auto | LU | Cholesky | CG | GMRES) and is dropped by   *)
-(* the resolver's candidate loop: it never fires for a documented          *)
-(* algorithm (InvUnitaryShadowed below).                                   *)
+(* Selection (plum fork, Dispatch.tla): a rule typed on a proper operator  *)
+(* class and the base case (LinearOperator, Auto) are incomparable, so the *)
+(* precedence decides: 0 beats the base cases' -1.  A conditional rule     *)
+(* only matches when its condition holds.  The conditional inv rule        *)
+(*    (LinearOperator, Algorithm) if A.isa(Unitary): Unitary(A.H)          *)
+(* is *less specific* than (LinearOperator, Auto|LU|Cholesky|CG|GMRES) and *)
+(* is dropped by the resolver's candidate loop: it cannot fire for any     *)
+(* documented algorithm (InvUnitaryRule below is therefore never selected  *)
+(* by InvRule; conformance confirms it on Unitary-declared operands).      *)
+(*                                                                         *)
+(* Explicit domain restrictions (exc = "Unmodelled", skipped by the        *)
+(* conformance harness, vacuous in the statements):                        *)
+(*  - the generic diagonal prober (Exact) on a NON-SQUARE operand;         *)
+(*  - dense Cholesky on the positive SEMI-definite singular boundary       *)
+(*    (rounding decides between LinAlgError and a 1e-8 pivot);             *)
+(*  - operators with more than 1e6 entries (CG / GMRES / Lanczos / Arnoldi *)
+(*    branches of Auto are transcribed for inv, never reached by TLC).     *)
+(* Not modelled: dtypes of the results, annotations of the results, the    *)
+(* `@` simplifications (cola.fns.dot) beyond the class skeletons observed. *)
 (***************************************************************************)
 EXTENDS Annot
 
 CONSTANT Mutant     \* "none", or the name of a deliberately wrong rule variant (negative controls)
 
 ---------------------------------------------------------------------------
-(* dispatch class of a tree: declarations (cola.PSD(x), ...) return an object of the same class, *)
-(* no_dispatch returns a bare LinearOperator                                                     *)
+(* dispatch class: declarations (cola.PSD(x), ...) return an object of the same class;            *)
+(* cola.fns.no_dispatch returns a bare LinearOperator                                             *)
 RECURSIVE Strip(_)
 Strip(t) == IF t.k = "Annot" THEN Strip(t.a[1]) ELSE t
 ClassOf(t) == LET u == Strip(t) IN IF u.k = "NoDispatch" THEN "LinearOperator" ELSE u.k
 
 IsSq(t) == ShapeOf(t)[1] = ShapeOf(t)[2]
-\* all([M.shape[-2] == M.shape[-1] for M in A.Ms])   (condition of the Product rules of inv and slogdet)
+\* all([M.shape[-2] == M.shape[-1] for M in A.Ms])   -- the condition of the Product rules of inv and slogdet
 AllSquare(u) == \A i \in 1..Len(u.a): IsSq(u.a[i])
-IsaPSD(t) == Isa(Infer(t), "PSD")
+IsaPSD(t) == Isa(Infer(t), "PSD")             \* A.isa(PSD)
 IsaUnitary(t) == Isa(Infer(t), "Unitary")
-\* np.prod(A.shape) <= 1e6
-Small(t) == ShapeOf(t)[1] * ShapeOf(t)[2] <= 1000000
+Small(t) == ShapeOf(t)[1] * ShapeOf(t)[2] <= 1000000      \* np.prod(A.shape) <= 1e6
 
 Res(calls, exc, val) == [calls |-> calls, exc |-> exc, val |-> val]
 NoVal == [none |-> TRUE]
@@ -55,15 +66,541 @@ ChainCalls(rs) ==
         F(i) == IF i > Len(rs) THEN <<>>
                 ELSE IF OK(rs[i]) THEN rs[i].calls \o F(i + 1) ELSE rs[i].calls
     IN F(1)
-FirstExc(rs) == IF AllOK(rs) THEN "none" ELSE rs[CHOOSE i \in 1..Len(rs): ~OK(rs[i]) /\ \A j \in 1..(i - 1): OK(rs[j])].exc
+FirstExc(rs) ==
+    IF AllOK(rs) THEN "none"
+    ELSE rs[CHOOSE i \in 1..Len(rs): ~OK(rs[i]) /\ \A j \in 1..(i - 1): OK(rs[j])].exc
 Vals(rs) == [i \in 1..Len(rs) |-> rs[i].val]
-\* rule `name` calls itself on the factors, then builds `v`
+\* rule `name` calls itself on every factor in order, then builds v
 Compose(name, rs, v) == Res(<<name>> \o ChainCalls(rs), FirstExc(rs), IF AllOK(rs) THEN v ELSE NoVal)
 Reverse(s) == [i \in 1..Len(s) |-> s[Len(s) + 1 - i]]
 
 RECURSIVE QProdSeq(_)
 QProdSeq(s) == IF s = <<>> THEN QInt(1) ELSE QMul(Head(s), QProdSeq(Tail(s)))
+RECURSIVE QSumSeq(_)
+QSumSeq(s) == IF s = <<>> THEN QInt(0) ELSE QAdd(Head(s), QSumSeq(Tail(s)))
 RECURSIVE IProdSeq(_)
 IProdSeq(s) == IF s = <<>> THEN 1 ELSE Head(s) * IProdSeq(Tail(s))
+\* folds that cancel common factors after every step (32-bit integers)
+RECURSIVE MProdN(_)
+MProdN(s) == IF Len(s) = 1 THEN s[1] ELSE MNormalize(MMul(s[1], MProdN(Tail(s))))
+RECURSIVE MKronN(_)
+MKronN(s) == IF Len(s) = 1 THEN s[1] ELSE MNormalize(MKron(s[1], MKronN(Tail(s))))
+RECURSIVE MBlockN(_)
+MBlockN(s) == IF Len(s) = 1 THEN s[1] ELSE MNormalize(MBlock2(s[1], MBlockN(Tail(s))))
+RECURSIVE MVStackN(_)
+MVStackN(s) == IF Len(s) = 1 THEN s[1] ELSE MNormalize(MVStack(s[1], MVStackN(Tail(s))))
 
-===========================================================================
+---------------------------------------------------------------------------
+(* 1.  cola.linalg.inv(A, Auto())                                          *)
+(*                                                                         *)
+(* Result trees use the ordinary kinds (Identity, Permutation, Product,    *)
+(* Kronecker, BlockDiag) plus leaves with an exact payload                 *)
+(*   p = [def  |-> the inverse the code asks for exists,                   *)
+(*        tame |-> def and the payload fits 32-bit arithmetic,             *)
+(*        m    |-> the exact inverse (when tame)]                          *)
+(* of kind "ScalarMul", "Diagonal", "TriangularInv" (class TriangularInv), *)
+(* "LUInv"   = inv(U) @ inv(L) @ inv(P)  with P, L, U = plu(A) (dense),    *)
+(* "CholInv" = inv(L.H) @ inv(L)         with L = cholesky(A)   (dense),   *)
+(* "IterInv" = IterativeOperatorWInfo(A, CG | GMRES)  (large operators).   *)
+\* 32-bit safety: MInverse multiplies the adjugate by the denominator and (complex case) by conj(det); the
+\* soundness statements multiply inverses with each other and cross-multiply denominators
+TameM(M) ==
+    LET dn == DetN(M) IN
+    /\ M.d <= 8
+    /\ (M.r <= 4 \/ (MIsReal(M) /\ EntriesWithin(M, 8)))
+    /\ IF dn[2] = 0 THEN Abs(dn[1]) <= 2000 ELSE (Abs(dn[1]) <= 63 /\ Abs(dn[2]) <= 63)
+InvLeaf(kind, M) ==
+    LET def == IsSquare(M) /\ ~MIsSingular(M)
+        can == def /\ TameM(M)
+        mi == IF can THEN MInverse(M) ELSE Zero(1, 1)
+    IN N(kind, <<>>, [def |-> def, tame |-> can /\ EntriesWithin(mi, 300), m |-> mi])
+
+\* @dispatch inv(A: Identity, alg: Algorithm):  return A
+InvIdentity(u) == Res(<<"inv(Identity,Algorithm)">>, "none", u)
+\* @dispatch inv(A: ScalarMul, alg):  ScalarMul(1 / A.c, shape=A.shape, dtype=A.dtype, device=A.device)
+InvScalarMul(u) ==
+    LET nz == ~QIsZero(u.p.c) IN
+    Res(<<"inv(ScalarMul,Algorithm)">>, "none",
+        N("ScalarMul", <<>>, [def |-> nz, tame |-> nz,
+                              m |-> IF nz THEN MScale(QInv(u.p.c), Eye(u.p.n)) ELSE Zero(1, 1)]))
+\* @dispatch inv(A: Permutation, alg):  Permutation(argsort(A.perm), A.dtype)
+ArgSort(p) == [j \in 1..Len(p) |-> CHOOSE i \in 1..Len(p): p[i] = j]
+InvPermutation(u) ==
+    Res(<<"inv(Permutation,Algorithm)">>, "none", N("Permutation", <<>>, [perm |-> ArgSort(u.p.perm), dt |-> u.p.dt]))
+\* @dispatch inv(A: Diagonal, alg):  Diagonal(1. / A.diag)        (no exception for a zero entry: inf)
+RecipDiag(v) ==
+    LET n == Len(v)
+        D == IProdSeq([i \in 1..n |-> CAbs2(v[i])])
+    IN MNormalize(MkMatD(n, n, D, LAMBDA i, j: IF i = j THEN CScaleI(D \div CAbs2(v[i]), CConj(v[i])) ELSE CZ))
+InvDiagonal(u) ==
+    LET nz == \A i \in 1..Len(u.p.v): u.p.v[i] # CZ IN
+    Res(<<"inv(Diagonal,Algorithm)">>, "none",
+        N("Diagonal", <<>>, [def |-> nz, tame |-> nz, m |-> IF nz THEN RecipDiag(u.p.v) ELSE Zero(1, 1)]))
+\* @dispatch inv(A: Triangular, alg):  TriangularInv(A)            (lazy: triangular solves)
+InvTriangular(u) == Res(<<"inv(Triangular,Algorithm)">>, "none", InvLeaf("TriangularInv", u.p.m))
+\* @dispatch(cond = A.isa(Unitary)) inv(A: LinearOperator, alg: Algorithm):  Unitary(A.H)   -- shadowed, see header
+InvUnitaryRule(t) == Res(<<"inv(LinearOperator,Algorithm)?">>, "none", N("Adjoint", <<t>>, NoP))
+
+\* base cases (precedence -1):  inv(A, Auto) -> Cholesky | CG | LU | GMRES
+\*   Cholesky: assert A.isa(PSD); L = cholesky(A); inv(L.H) @ inv(L)       (cholesky(LinearOperator): dense, raises
+\*             LinAlgError unless positive definite)
+\*   LU:       P, L, U = plu(A); inv(U) @ inv(L) @ inv(P)                   (plu(LinearOperator): dense scipy lu;
+\*             for a non-square A the factors do not chain: inv(U) @ inv(L) raises before inv(P) is called)
+\* dense Cholesky of a matrix that is not positive definite: LinAlgError -- except on the boundary (positive
+\* semi-definite and singular), where rounding decides whether the last pivot is 0 or 1e-16 (DOMAIN RESTRICTION)
+CholFailure(D) == IF IsSquare(D) /\ IsPSD(D) THEN "Unmodelled" ELSE "LinAlgError"
+InvFallback(t) ==
+    LET D == Denote(t)
+        auto == "inv(LinearOperator,Auto)"
+        tri == "inv(Triangular,Algorithm)"
+    IN IF ~Small(t)
+       THEN IF IsaPSD(t) THEN Res(<<auto, "inv(LinearOperator,CG)">>, "none", N("IterInv", <<>>, [alg |-> "CG"]))
+            ELSE Res(<<auto, "inv(LinearOperator,GMRES)">>, "none", N("IterInv", <<>>, [alg |-> "GMRES"]))
+       ELSE IF IsaPSD(t)
+       THEN IF IsSquare(D) /\ IsPD(D)
+            THEN Res(<<auto, "inv(LinearOperator,Cholesky)", "cholesky(LinearOperator)", tri, tri>>, "none",
+                     InvLeaf("CholInv", D))
+            ELSE Res(<<auto, "inv(LinearOperator,Cholesky)", "cholesky(LinearOperator)">>, CholFailure(D), NoVal)
+       ELSE IF ~IsSquare(D)
+            THEN Res(<<auto, "inv(LinearOperator,LU)", "plu(LinearOperator)", tri, tri>>, "AssertionError", NoVal)
+            ELSE Res(<<auto, "inv(LinearOperator,LU)", "plu(LinearOperator)", tri, tri, "inv(Permutation,Algorithm)">>,
+                     "none", InvLeaf("LUInv", D))
+
+RECURSIVE InvRule(_)
+InvRule(t) ==
+    LET u == Strip(t)
+        cls == ClassOf(t)
+        sub == [i \in 1..Len(u.a) |-> InvRule(u.a[i])]
+    IN CASE cls = "Identity" -> InvIdentity(u)
+         [] cls = "ScalarMul" -> InvScalarMul(u)
+         [] cls = "Permutation" -> InvPermutation(u)
+         [] cls = "Diagonal" -> InvDiagonal(u)
+         [] cls = "Triangular" -> InvTriangular(u)
+         \* @dispatch(cond=all square factors) inv(A: Product, alg):  Product(*reversed([inv(M, alg) for M in A.Ms]))
+         [] cls = "Product" /\ (AllSquare(u) \/ Mutant = "ProductNoGuard") ->
+               Compose("inv(Product,Algorithm)?", sub,
+                       N("Product", IF Mutant = "ProductNotReversed" THEN Vals(sub) ELSE Reverse(Vals(sub)), NoP))
+         \* @dispatch inv(A: BlockDiag, alg):  BlockDiag(*[inv(M, alg) for M in A.Ms], multiplicities=A.multiplicities)
+         [] cls = "BlockDiag" ->
+               Compose("inv(BlockDiag,Algorithm)", sub,
+                       N("BlockDiag", Vals(sub),
+                         [mult |-> IF Mutant = "BlockInvNoMult" THEN [i \in 1..Len(u.a) |-> 1] ELSE u.p.mult]))
+         \* @dispatch inv(A: Kronecker, alg):  Kronecker(*[inv(M, alg) for M in A.Ms])
+         [] cls = "Kronecker" ->
+               Compose("inv(Kronecker,Algorithm)", sub,
+                       N("Kronecker", IF Mutant = "KronInvReversed" THEN Reverse(Vals(sub)) ELSE Vals(sub), NoP))
+         [] OTHER -> InvFallback(t)
+
+\* denotation of result trees
+RECURSIVE DenoteR(_)
+DenoteR(r) ==
+    IF Len(r.a) = 0 THEN (IF "m" \in DOMAIN r.p THEN r.p.m ELSE Denote(r))
+    ELSE LET ds == [i \in 1..Len(r.a) |-> DenoteR(r.a[i])] IN
+         CASE r.k = "Product" -> MProdN(ds)
+           [] r.k = "Kronecker" -> MKronN(ds)
+           [] r.k = "BlockDiag" -> MBlockN(Repeat(ds, r.p.mult))
+RECURSIVE AllDef(_)
+AllDef(r) == IF Len(r.a) = 0 THEN ("def" \in DOMAIN r.p => r.p.def) ELSE \A i \in 1..Len(r.a): AllDef(r.a[i])
+RECURSIVE AllTame(_)
+AllTame(r) == IF Len(r.a) = 0 THEN ("tame" \in DOMAIN r.p => r.p.tame) ELSE \A i \in 1..Len(r.a): AllTame(r.a[i])
+
+\* class skeleton of the object the real code returns
+SL(k) == [k |-> k, a |-> <<>>]
+RECURSIVE Skel(_)
+Skel(r) ==
+    CASE r.k = "LUInv" -> [k |-> "Product", a |-> <<SL("TriangularInv"), SL("TriangularInv"), SL("Permutation")>>]
+      [] r.k = "CholInv" -> [k |-> "Product", a |-> <<SL("TriangularInv"), SL("TriangularInv")>>]
+      [] r.k = "IterInv" -> SL("IterativeOperatorWInfo")
+      [] OTHER -> [k |-> r.k, a |-> [i \in 1..Len(r.a) |-> Skel(r.a[i])]]
+
+---------------------------------------------------------------------------
+(* 2.  cola.linalg.slogdet(A, Auto(), Auto())  as the exact determinant sign * exp(logdet)        *)
+\* parity as the code computes it: (-1)^(n - number of cycles)
+Orbit(p, i) ==
+    LET RECURSIVE F(_, _)
+        F(j, acc) == IF j \in acc THEN acc ELSE F(p[j], acc \cup {j})
+    IN F(i, {})
+NumCycles(p) == Cardinality({Orbit(p, i): i \in 1..Len(p)})
+PermParity(p) == IF (Len(p) - NumCycles(p)) % 2 = 0 THEN 1 ELSE -1
+
+\* base cases: Auto -> Cholesky (PSD) | LU; Lanczos | Arnoldi when large (stochastic / Krylov: not modelled)
+\*   Cholesky: L = cholesky(A); s, ld = slogdet(L); return s * conj(s), 2 * ld
+\*   LU:       P, L, U = plu(A); slogdet(P @ L @ U)   -- a Product of three square factors -> Product rule;
+\*             non-square A: P @ L @ U is a Product with a non-square factor, the Product rule's condition fails,
+\*             the LU base case is selected again: unbounded recursion (RecursionError)
+DetFallback(t) ==
+    LET D == Denote(t)
+        auto == "slogdet(LinearOperator,Auto,Algorithm)"
+        tri == "slogdet(Triangular,Algorithm,Algorithm)"
+    IN IF ~Small(t) THEN Res(<<auto>>, "Unmodelled", NoVal)
+       ELSE IF IsaPSD(t)
+       THEN IF IsSquare(D) /\ IsPD(D)
+            THEN Res(<<auto, "slogdet(LinearOperator,Cholesky,Algorithm)", "cholesky(LinearOperator)", tri>>, "none", Det(D))
+            ELSE Res(<<auto, "slogdet(LinearOperator,Cholesky,Algorithm)", "cholesky(LinearOperator)">>, CholFailure(D), NoVal)
+       ELSE IF ~IsSquare(D)
+            THEN Res(<<auto, "slogdet(LinearOperator,LU,Algorithm)", "plu(LinearOperator)">>, "RecursionError", NoVal)
+            ELSE Res(<<auto, "slogdet(LinearOperator,LU,Algorithm)", "plu(LinearOperator)",
+                       "slogdet(Product,Algorithm,Algorithm)?", "slogdet(Permutation,Algorithm,Algorithm)", tri, tri>>,
+                     "none", Det(D))
+
+RECURSIVE DetRule(_)
+DetRule(t) ==
+    LET u == Strip(t)
+        cls == ClassOf(t)
+        sub == [i \in 1..Len(u.a) |-> DetRule(u.a[i])]
+        n == Len(u.a)
+    IN CASE
+         \* @dispatch(cond=all square) slogdet(A: Product): product(signs), sum(logdets)
+            cls = "Product" /\ AllSquare(u) ->
+               Compose("slogdet(Product,Algorithm,Algorithm)?", sub, QProdSeq(Vals(sub)))
+         \* Identity: 1, 0
+         [] cls = "Identity" -> Res(<<"slogdet(Identity,Algorithm,Algorithm)">>, "none", QInt(1))
+         \* ScalarMul: phase = c / |c|;  phase ** n,  n * log |c|        (det(c I_n) = c^n)
+         [] cls = "ScalarMul" -> Res(<<"slogdet(ScalarMul,Algorithm,Algorithm)">>, "none", QPow(u.p.c, u.p.n))
+         \* Diagonal: prod(diag / |diag|), sum(log |diag|)
+         [] cls = "Diagonal" -> Res(<<"slogdet(Diagonal,Algorithm,Algorithm)">>, "none", [n |-> CProdSeq(u.p.v), d |-> 1])
+         \* Kronecker: sizes = [Ai.shape[-1]]; prod = product(sizes); logdets[i] * prod / sizes[i]; signs[i] ** (prod / sizes[i])
+         [] cls = "Kronecker" ->
+               LET sizes == [i \in 1..n |-> ShapeOf(u.a[i])[2]]
+                   prod == IProdSeq(sizes)
+                   ex(i) == IF Mutant = "KronDetExp" THEN sizes[i] ELSE prod \div sizes[i]
+               IN Compose("slogdet(Kronecker,Algorithm,Algorithm)", sub, QProdSeq([i \in 1..n |-> QPow(sub[i].val, ex(i))]))
+         \* BlockDiag: sum(ld * n for ld, n in zip(logdets, multiplicities)); product(s ** n ...)
+         [] cls = "BlockDiag" ->
+               Compose("slogdet(BlockDiag,Algorithm,Algorithm)", sub,
+                       QProdSeq([i \in 1..n |-> QPow(sub[i].val, IF Mutant = "BlockDetNoMult" THEN 1 ELSE u.p.mult[i])]))
+         \* Triangular: diag = xnp.diag(A.A); prod(diag / |diag|), sum(log |diag|)
+         [] cls = "Triangular" ->
+               Res(<<"slogdet(Triangular,Algorithm,Algorithm)">>, "none",
+                   [n |-> CProdSeq(DiagK(u.p.m, 0)), d |-> IPow(u.p.m.d, u.p.m.r)])
+         \* Permutation: parity by cycle count
+         [] cls = "Permutation" ->
+               Res(<<"slogdet(Permutation,Algorithm,Algorithm)">>, "none",
+                   QInt(IF Mutant = "PermDetNoSign" THEN 1 ELSE PermParity(u.p.perm)))
+         [] OTHER -> DetFallback(t)
+
+---------------------------------------------------------------------------
+(* 3.  cola.linalg.diag(A, k, Auto())      values are column matrices (possibly with 0 rows)       *)
+Ones(n) == MkMat(n, 1, LAMBDA i, j: C1)
+ZerosV(n) == MkMat(n, 1, LAMBDA i, j: CZ)
+DiagVec(M, k) == LET s == DiagK(M, k) IN MkMatD(Len(s), 1, M.d, LAMBDA i, j: s[i])
+VecSum(v) == [n |-> CSumSeq([i \in 1..v.r |-> v.e[i][1]]), d |-> v.d]
+\* broadcast sum of two vectors, flattened in C order:  (a[:, None] + b[None, :]).reshape(-1)
+OuterSum(a, b) == MAdd(MKron(a, Ones(b.r)), MKron(Ones(a.r), b))
+RECURSIVE OuterSumSeq(_)
+OuterSumSeq(s) == IF Len(s) = 1 THEN s[1] ELSE OuterSum(s[1], OuterSumSeq(Tail(s)))
+
+\* Sum: sum(diag(M, k, alg) for M in A.Ms) -- a lazy generator folded from the left: the addition after each call
+\* uses NumPy broadcasting (equal lengths, or one operand of length 1; otherwise ValueError before the next call).
+\* Lengths can only differ when a factor's rule returned a wrong-length diagonal (non-square blocks, see DiagDomain).
+BCompat(a, b) == a.r = b.r \/ a.r = 1 \/ b.r = 1
+BAdd(a, b) == IF a.r = b.r THEN MAdd(a, b)
+              ELSE IF a.r = 1 THEN MAdd(MKron(Ones(b.r), a), b) ELSE MAdd(a, MKron(Ones(a.r), b))
+RECURSIVE SumFold(_, _, _, _, _)
+SumFold(rs, i, calls, first, acc) ==
+    IF i > Len(rs) THEN Res(calls, "none", acc)
+    ELSE LET c == rs[i]
+             cs == calls \o c.calls
+         IN IF ~OK(c) THEN Res(cs, c.exc, NoVal)
+            ELSE IF first THEN SumFold(rs, i + 1, cs, FALSE, c.val)
+            ELSE IF ~BCompat(acc, c.val) THEN Res(cs, "ValueError", NoVal)
+            ELSE SumFold(rs, i + 1, cs, FALSE, BAdd(acc, c.val))
+
+\* Identity / Diagonal:  k == 0: ones / A.diag;  else zeros((A.shape[0] - abs(k),))   (negative size: ValueError)
+DiagIdentityLike(name, n, k, v0) ==
+    IF k = 0 THEN Res(<<name>>, "none", v0)
+    ELSE IF n - Abs(k) < 0 THEN Res(<<name>>, "ValueError", NoVal)
+    ELSE Res(<<name>>, "none", ZerosV(n - Abs(k)))
+\* base case: Auto -> exact_faster = tol < 1 / sqrt(10 * prod(shape)) with tol = 1e-6, i.e. prod(shape) < 1e11:
+\* always true on the bounded domain -> Exact(): the probing algorithm (Prober.tla / C08: exact on square operators).
+\* DOMAIN RESTRICTION: on a non-square operator the prober multiplies by chunks of a non-square "identity"; what it
+\* then returns or raises depends on the shape (m x 1 passes, 2 x 3 raises ValueError) and is not modelled.
+DiagFallback(t, k) ==
+    LET calls == <<"diag(LinearOperator,int,Auto)", "diag(LinearOperator,int,Hutch|HutchPP|Exact)">> IN
+    IF IsSq(t) THEN Res(calls, "none", DiagVec(Denote(t), k)) ELSE Res(calls, "Unmodelled", NoVal)
+
+RECURSIVE DiagRule(_, _)
+DiagRule(t, k) ==
+    LET u == Strip(t)
+        cls == ClassOf(t)
+        sub == [i \in 1..Len(u.a) |-> DiagRule(u.a[i], k)]
+    IN CASE
+         \* Dense (Triangular is a subclass): xnp.diag(A.A, diagonal=k)
+            cls \in {"Dense", "Triangular"} -> Res(<<"diag(Dense,int,Algorithm)">>, "none", DiagVec(u.p.m, k))
+         [] cls = "Identity" -> DiagIdentityLike("diag(Identity,int,Algorithm)", u.p.n, k, Ones(u.p.n))
+         [] cls = "Diagonal" -> DiagIdentityLike("diag(Diagonal,int,Algorithm)", Len(u.p.v), k, MCol(u.p.v))
+         \* Sum: sum(diag(M, k, alg) for M in A.Ms)
+         [] cls = "Sum" -> SumFold(sub, 1, <<"diag(Sum,int,Algorithm)">>, TRUE, NoVal)
+         \* BlockDiag: assert k == 0; concat([diag(M)] * m ...)      (no test that the blocks are square)
+         [] cls = "BlockDiag" ->
+               IF k # 0 THEN Res(<<"diag(BlockDiag,int,Algorithm)">>, "AssertionError", NoVal)
+               ELSE Compose("diag(BlockDiag,int,Algorithm)", sub, MVStackN(Repeat(Vals(sub), u.p.mult)))
+         \* ScalarMul: A.c * diag(I_like(A), k, alg)
+         [] cls = "ScalarMul" ->
+               LET i == DiagIdentityLike("diag(Identity,int,Algorithm)", u.p.n, k, Ones(u.p.n)) IN
+               Res(<<"diag(ScalarMul,int,Algorithm)">> \o i.calls, i.exc, IF OK(i) THEN MScale(u.p.c, i.val) ELSE NoVal)
+         \* Kronecker: assert k == 0; outer product of the factors' diagonals, flattened   (no test for square factors)
+         [] cls = "Kronecker" ->
+               IF k # 0 THEN Res(<<"diag(Kronecker,int,Algorithm)">>, "AssertionError", NoVal)
+               ELSE Compose("diag(Kronecker,int,Algorithm)", sub,
+                            IF Mutant = "DiagKronSum" THEN OuterSumSeq(Vals(sub)) ELSE MKronN(Vals(sub)))
+         \* KronSum: assert k == 0; outer sum of the factors' diagonals, flattened
+         [] cls = "KronSum" ->
+               IF k # 0 THEN Res(<<"diag(KronSum,int,Algorithm)">>, "AssertionError", NoVal)
+               ELSE Compose("diag(KronSum,int,Algorithm)", sub, OuterSumSeq(Vals(sub)))
+         [] OTHER -> DiagFallback(t, k)
+
+---------------------------------------------------------------------------
+(* 4.  cola.linalg.trace(A, Auto())                                        *)
+RECURSIVE TraceRule(_)
+TraceRule(t) ==
+    LET u == Strip(t)
+        cls == ClassOf(t)
+        sub == [i \in 1..Len(u.a) |-> TraceRule(u.a[i])]
+    IN \* trace(A: Kronecker): product([trace(M, alg) for M in A.Ms])
+       IF cls = "Kronecker"
+       THEN Compose("trace(Kronecker,Algorithm)", sub,
+                    IF Mutant = "TraceKronSum" THEN QSumSeq(Vals(sub)) ELSE QProdSeq(Vals(sub)))
+       \* trace(A: LinearOperator): assert square; diag(A, 0, alg).sum()
+       ELSE IF ~IsSq(t) THEN Res(<<"trace(LinearOperator,Algorithm)">>, "AssertionError", NoVal)
+       ELSE LET d == DiagRule(t, 0) IN
+            Res(<<"trace(LinearOperator,Algorithm)">> \o d.calls, d.exc, IF OK(d) THEN VecSum(d.val) ELSE NoVal)
+
+---------------------------------------------------------------------------
+(* 4b.  cola.linalg.decompositions: plu(A) and cholesky(A)                 *)
+(*                                                                         *)
+(* The generic rules factor the dense matrix (scipy lu / numpy cholesky).  *)
+(* For the correctness statements the model needs *a* valid exact leaf     *)
+(* factorisation: Gaussian elimination with partial pivoting and the       *)
+(* Cholesky recursion over reduced Gaussian rationals (square parts of     *)
+(* size <= 3 whose Cholesky pivots are perfect squares; other parts are    *)
+(* "not tame": skeleton and rules fired are still modelled, the algebraic  *)
+(* statement is not evaluated).  The payloads are not compared with the    *)
+(* real factors (C11 does that numerically); the statements say: IF the    *)
+(* leaf factorisations are factorisations THEN so is the structural one.   *)
+QNorm(x) ==
+    LET g == Gcd(Gcd(x.n[1], x.n[2]), x.d) IN
+    IF g <= 1 THEN x ELSE [n |-> <<x.n[1] \div g, x.n[2] \div g>>, d |-> x.d \div g]
+QSubN(x, y) == QNorm(QAdd(x, QNeg(y)))
+QMulN(x, y) == QNorm(QMul(x, y))
+QDivN(x, y) == QNorm(QDiv(x, y))
+\* matrices of reduced rationals <-> common-denominator matrices
+ToQM(M) == [i \in 1..M.r |-> [j \in 1..M.c |-> QNorm([n |-> M.e[i][j], d |-> M.d])]]
+Lcm(a, b) == (a \div Gcd(a, b)) * b
+FromQM(q, r, c) ==
+    LET RECURSIVE L(_, _)
+        L(i, j) == IF i > r THEN 1 ELSE IF j > c THEN L(i + 1, 1) ELSE Lcm(q[i][j].d, L(i, j + 1))
+        D == L(1, 1)
+    IN MkMatD(r, c, D, LAMBDA i, j: CScaleI(D \div q[i][j].d, q[i][j].n))
+
+\* LU with partial pivoting (first row of maximal |re| + |im|, as LAPACK), in place: multipliers below the diagonal
+RECURSIVE LUStep(_, _, _, _)
+LUStep(A, perm, k, n) ==
+    IF k > n THEN [A |-> A, perm |-> perm]
+    ELSE LET cab(i) == Abs(A[i][k].n[1]) + Abs(A[i][k].n[2])
+             better(i, p) == cab(i) * A[p][k].d > cab(p) * A[i][k].d
+             piv == CHOOSE p \in k..n: (\A i \in k..n: ~better(i, p)) /\ (\A i \in k..(p - 1): better(p, i))
+             sw(i) == IF i = k THEN piv ELSE IF i = piv THEN k ELSE i
+             B == [i \in 1..n |-> A[sw(i)]]
+             perm2 == [i \in 1..n |-> perm[sw(i)]]
+             pz == QIsZero(B[k][k])
+             C == [i \in 1..n |->
+                     IF i <= k \/ pz THEN B[i]
+                     ELSE LET m == QDivN(B[i][k], B[k][k]) IN
+                          [j \in 1..n |-> IF j < k THEN B[i][j] ELSE IF j = k THEN m
+                                          ELSE QSubN(B[i][j], QMulN(m, B[k][j]))]]
+         IN LUStep(C, perm2, k + 1, n)
+\* A = P L U with (P v) = v[argsort(perm)]: rows perm[1], perm[2], ... of A are the rows of L U
+ExactPLU(M) ==
+    LET n == M.r
+        f == LUStep(ToQM(M), [i \in 1..n |-> i], 1, n)
+        Lq == [i \in 1..n |-> [j \in 1..n |-> IF i > j THEN f.A[i][j] ELSE IF i = j THEN QInt(1) ELSE QInt(0)]]
+        Uq == [i \in 1..n |-> [j \in 1..n |-> IF i <= j THEN f.A[i][j] ELSE QInt(0)]]
+    IN [p |-> ArgSort(f.perm), L |-> FromQM(Lq, n, n), U |-> FromQM(Uq, n, n)]
+
+\* exact Cholesky factor (lower, positive diagonal) when every pivot is the square of a rational
+ISqrtOK(n) == n >= 0 /\ n <= 40000 /\ \E r \in 0..200: r * r = n
+ISqrt(n) == CHOOSE r \in 0..200: r * r = n
+RECURSIVE CholEntry(_, _, _)
+CholEntry(A, i, j) ==        \* [ok, v]: entry (i, j), j <= i, of the factor of the rational matrix A
+    LET RECURSIVE Acc(_)
+        Acc(k) == IF k = 0 THEN [ok |-> TRUE, v |-> A[i][j]]
+                  ELSE LET a == Acc(k - 1)
+                           x == CholEntry(A, i, k)
+                           y == CholEntry(A, j, k)
+                       IN IF ~(a.ok /\ x.ok /\ y.ok) THEN [ok |-> FALSE, v |-> QInt(0)]
+                          ELSE [ok |-> TRUE, v |-> QSubN(a.v, QMulN(x.v, QConj(y.v)))]
+        s == Acc(j - 1)
+    IN IF ~s.ok THEN s
+       ELSE IF i = j
+       THEN IF s.v.n[2] = 0 /\ s.v.n[1] > 0 /\ ISqrtOK(s.v.n[1]) /\ ISqrtOK(s.v.d)
+            THEN [ok |-> TRUE, v |-> [n |-> <<ISqrt(s.v.n[1]), 0>>, d |-> ISqrt(s.v.d)]]
+            ELSE [ok |-> FALSE, v |-> QInt(0)]
+       ELSE LET dj == CholEntry(A, j, j) IN
+            IF dj.ok THEN [ok |-> TRUE, v |-> QDivN(s.v, dj.v)] ELSE dj
+ExactChol(M) ==
+    LET n == M.r
+        A == ToQM(M)
+        E == [i \in 1..n |-> [j \in 1..n |-> IF j <= i THEN CholEntry(A, i, j) ELSE [ok |-> TRUE, v |-> QInt(0)]]]
+        ok == \A i \in 1..n: \A j \in 1..n: E[i][j].ok
+    IN [ok |-> ok, L |-> IF ok THEN FromQM([i \in 1..n |-> [j \in 1..n |-> E[i][j].v]], n, n) ELSE Zero(1, 1)]
+
+ILike(u) == N("Identity", <<>>, [n |-> ShapeOf(u)[1], dt |-> "f64"])       \* I_like(A)  (square parts only)
+TLeaf(M, tame) == N("Triangular", <<>>, [m |-> M, tame |-> tame, def |-> TRUE])
+
+\* @dispatch plu(A: LinearOperator): p, L, U = xnp.lu(A.to_dense()); Permutation(p), Triangular(L), Triangular(U)
+\*    (also for non-square A: L is m x k, U is k x n)
+PluGeneric(t) ==
+    LET D == Denote(t)
+        \* (32-bit safety of the exact elimination: small real parts, very small complex parts)
+        tame == IsSquare(D) /\ D.d <= 2 /\ (IF MIsReal(D) THEN D.r <= 3 /\ EntriesWithin(D, 12)
+                                             ELSE (D.r <= 2 /\ EntriesWithin(D, 6)) \/ (D.r = 3 /\ EntriesWithin(D, 3)))
+        f == IF tame THEN ExactPLU(D) ELSE [p |-> <<1>>, L |-> Zero(1, 1), U |-> Zero(1, 1)]
+    IN Res(<<"plu(LinearOperator)">>, "none",
+           <<N("Permutation", <<>>, [perm |-> f.p, dt |-> "f64", tame |-> tame]), TLeaf(f.L, tame), TLeaf(f.U, tame)>>)
+RECURSIVE PluRule(_)
+PluRule(t) ==
+    LET u == Strip(t)
+        cls == ClassOf(t)
+        sub == [i \in 1..Len(u.a) |-> PluRule(u.a[i])]
+        part(j) == [i \in 1..Len(u.a) |-> sub[i].val[j]]
+    IN CASE cls = "Identity" -> Res(<<"plu(Identity)">>, "none", <<u, u, u>>)           \* return A, A, A
+         \* plu(A: Diagonal | ScalarMul): I_like(A), I_like(A), A
+         [] cls \in {"Diagonal", "ScalarMul"} -> Res(<<"plu(Diagonal|ScalarMul)">>, "none", <<ILike(u), ILike(u), u>>)
+         \* plu(A: Kronecker): P, L, U = zip(*[plu(Ai) for Ai in A.Ms]); Kronecker(*P), Kronecker(*L), Kronecker(*U)
+         [] cls = "Kronecker" ->
+               Compose("plu(Kronecker)", sub,
+                       IF Mutant = "PluKronSwapLU"
+                       THEN <<N("Kronecker", part(1), NoP), N("Kronecker", part(3), NoP), N("Kronecker", part(2), NoP)>>
+                       ELSE <<N("Kronecker", part(1), NoP), N("Kronecker", part(2), NoP), N("Kronecker", part(3), NoP)>>)
+         \* plu(A: BlockDiag): BlockDiag(*P, multiplicities=...), BlockDiag(*L, ...), BlockDiag(*U, ...)
+         [] cls = "BlockDiag" ->
+               LET m == [mult |-> IF Mutant = "PluBlockNoMult" THEN [i \in 1..Len(u.a) |-> 1] ELSE u.p.mult] IN
+               Compose("plu(BlockDiag)", sub,
+                       <<N("BlockDiag", part(1), m), N("BlockDiag", part(2), m), N("BlockDiag", part(3), m)>>)
+         [] OTHER -> PluGeneric(t)
+
+\* @dispatch cholesky(A: LinearOperator): Triangular(xnp.cholesky(A.to_dense()), lower=True)
+\*    numpy reads the lower triangle (and the real part of the diagonal): it raises LinAlgError iff that Hermitian
+\*    completion is not positive definite, or the matrix is not square; on the semi-definite boundary rounding decides
+HermLower(M) == MkMatD(M.r, M.c, M.d, LAMBDA i, j: IF i > j THEN M.e[i][j] ELSE IF i = j THEN <<M.e[i][j][1], 0>>
+                                                     ELSE CConj(M.e[j][i]))
+CholGeneric(t) ==
+    LET D == Denote(t)
+        H == HermLower(D)
+    IN IF ~IsSquare(D) THEN Res(<<"cholesky(LinearOperator)">>, "LinAlgError", NoVal)
+       ELSE IF ~IsPD(H) THEN Res(<<"cholesky(LinearOperator)">>, CholFailure(H), NoVal)
+       ELSE LET can == D.r <= 3 /\ D.d <= 2 /\ EntriesWithin(D, 24)
+                f == IF can THEN ExactChol(H) ELSE [ok |-> FALSE, L |-> Zero(1, 1)]
+            IN Res(<<"cholesky(LinearOperator)">>, "none",
+                   N("Triangular", <<>>, [m |-> f.L, tame |-> f.ok, def |-> IsHermitian(D)]))
+\* cholesky(A: Diagonal | ScalarMul): cola.linalg.sqrt(A, Auto()) = pow(A, 0.5) = apply_unary(x ** 0.5, A):
+\*    Diagonal(sqrt(diag))  /  sqrt(c) * I_like(A)  (= Product(ScalarMul, Identity));  a negative entry gives nan
+SqrtCalls(cls) == <<"cholesky(Diagonal|ScalarMul)", "sqrt(LinearOperator,Algorithm)", "pow(LinearOperator,Number,Algorithm)",
+                    "apply_unary(Callable," \o cls \o ",Algorithm)">>
+NonNegReal(x) == x[2] = 0 /\ x[1] >= 0
+RECURSIVE CholRule(_)
+CholRule(t) ==
+    LET u == Strip(t)
+        cls == ClassOf(t)
+        sub == [i \in 1..Len(u.a) |-> CholRule(u.a[i])]
+    IN CASE cls = "Identity" -> Res(<<"cholesky(Identity)">>, "none", u)
+         [] cls = "Diagonal" ->
+               LET def == \A i \in 1..Len(u.p.v): NonNegReal(u.p.v[i])
+                   tame == def /\ \A i \in 1..Len(u.p.v): ISqrtOK(u.p.v[i][1])
+               IN Res(SqrtCalls("Diagonal"), "none",
+                      N("Diagonal", <<>>, [def |-> def, tame |-> tame,
+                                           m |-> IF tame THEN MDiagOf([i \in 1..Len(u.p.v) |-> <<ISqrt(u.p.v[i][1]), 0>>])
+                                                 ELSE Zero(1, 1)]))
+         [] cls = "ScalarMul" ->
+               LET c == QNorm(u.p.c)
+                   def == NonNegReal(c.n)
+                   tame == def /\ ISqrtOK(c.n[1]) /\ ISqrtOK(c.d)
+               IN Res(SqrtCalls("ScalarMul"), "none",
+                      N("Product", <<N("ScalarMul", <<>>, [def |-> def, tame |-> tame,
+                                       m |-> IF tame THEN MScale([n |-> <<ISqrt(c.n[1]), 0>>, d |-> ISqrt(c.d)], Eye(u.p.n))
+                                             ELSE Zero(1, 1)]), ILike(u)>>, NoP))
+         \* cholesky(A: Kronecker): Kronecker(*[cholesky(Ai) for Ai in A.Ms])       (no test that the factors are PD)
+         [] cls = "Kronecker" ->
+               Compose("cholesky(Kronecker)", sub,
+                       N("Kronecker", IF Mutant = "CholKronReversed" THEN Reverse(Vals(sub)) ELSE Vals(sub), NoP))
+         \* cholesky(A: BlockDiag): BlockDiag(*[cholesky(Ai) for Ai in A.Ms], multiplicities=A.multiplicities)
+         [] cls = "BlockDiag" -> Compose("cholesky(BlockDiag)", sub, N("BlockDiag", Vals(sub), [mult |-> u.p.mult]))
+         [] OTHER -> CholGeneric(t)
+
+\* skeleton of a (P, L, U) triple
+Skel3(v) == <<Skel(v[1]), Skel(v[2]), Skel(v[3])>>
+
+---------------------------------------------------------------------------
+(* 5.  Correctness statements (checked as invariants by MC_LinalgRules on the enumerated term space)     *)
+\* the annotation inference is sound on every sub-tree (the rules trust A.isa(PSD); unsound inference is the
+\* separate known finding KF-C05-scalar-annotations)
+RECURSIVE InferSoundAll(_)
+InferSoundAll(t) == Unsound(t) = {} /\ \A i \in 1..Len(t.a): InferSoundAll(t.a[i])
+
+NonSingular(t) == IsSq(t) /\ ~MIsSingular(Denote(t))
+
+\* whenever inv returns and every inverse it is made of exists: it denotes the inverse
+InvSoundAt(t) ==
+    LET r == InvRule(t) IN
+    (NonSingular(t) /\ OK(r) /\ AllDef(r.val) /\ AllTame(r.val) /\ TameM(Denote(t)))
+        => LET mi == MInverse(Denote(t)) IN EntriesWithin(mi, 3000) => MEq(DenoteR(r.val), mi)
+\* an invertible operand is never refused and no rule asks for the inverse of a singular / non-square factor
+InvCompleteAt(t) ==
+    (NonSingular(t) /\ InferSoundAll(t)) => LET r == InvRule(t) IN OK(r) /\ AllDef(r.val)
+DetSoundAt(t) ==
+    LET r == DetRule(t) IN (OK(r) /\ InferSoundAll(t)) => QEq(r.val, Det(Denote(t)))
+\* a determinant is refused only for non-square operands / factors and for PSD-declared operands that are not PD
+DetCompleteAt(t) ==
+    (NonSingular(t) /\ InferSoundAll(t)) => OK(DetRule(t))
+
+\* domain on which the structural diag rules are correct: the BlockDiag and Kronecker rules are only reached with
+\* square blocks / factors.  The code does NOT test this (DiagSoundEverywhere fails: genuine defect).
+RECURSIVE DiagDomain(_)
+DiagDomain(t) ==
+    LET u == Strip(t)
+        cls == ClassOf(t)
+    IN CASE cls \in {"BlockDiag", "Kronecker"} -> AllSquare(u) /\ \A i \in 1..Len(u.a): DiagDomain(u.a[i])
+         [] cls \in {"Sum", "KronSum"} -> \A i \in 1..Len(u.a): DiagDomain(u.a[i])
+         [] OTHER -> TRUE
+DiagSoundAt(t, k) ==
+    LET r == DiagRule(t, k) IN (OK(r) /\ DiagDomain(t)) => MEq(r.val, DiagVec(Denote(t), k))
+DiagSoundEverywhereAt(t, k) ==
+    LET r == DiagRule(t, k) IN OK(r) => MEq(r.val, DiagVec(Denote(t), k))
+\* the refusals are exactly: k # 0 on BlockDiag / Kronecker / KronSum, the prober on a non-square operand
+RECURSIVE TraceDomain(_)
+TraceDomain(t) ==
+    LET u == Strip(t) IN
+    IF ClassOf(t) = "Kronecker" THEN \A i \in 1..Len(u.a): TraceDomain(u.a[i]) ELSE DiagDomain(t)
+TraceSoundAt(t) ==
+    LET r == TraceRule(t) IN (OK(r) /\ TraceDomain(t)) => QEq(r.val, MTrace(Denote(t)))
+TraceSoundEverywhereAt(t) ==
+    LET r == TraceRule(t) IN OK(r) => QEq(r.val, MTrace(Denote(t)))
+
+\* plu: total, and P is a permutation matrix, L lower, U upper triangular, P L U = A
+PluSoundAt(t) ==
+    LET r == PluRule(t) IN
+    /\ OK(r)
+    /\ (AllTame(r.val[1]) /\ AllTame(r.val[2]) /\ AllTame(r.val[3])) =>
+          LET P == DenoteR(r.val[1])
+              L == DenoteR(r.val[2])
+              U == DenoteR(r.val[3])
+          IN IsPermutationMatrix(P) /\ IsLower(L) /\ IsUpper(U) /\ MEq(MProdN(<<P, L, U>>), Denote(t))
+\* cholesky: whenever it returns and every part is the Cholesky factor of that part: L lower, L L^H = A
+CholSoundAt(t) ==
+    LET r == CholRule(t) IN
+    (OK(r) /\ AllDef(r.val) /\ AllTame(r.val)) =>
+        LET L == DenoteR(r.val) IN IsLower(L) /\ MEq(MNormalize(MMul(L, MAdj(L))), Denote(t))
+\* domain on which cholesky is complete: every Kronecker node that is reached has positive definite factors
+RECURSIVE CholDomain(_)
+CholDomain(t) ==
+    LET u == Strip(t)
+        cls == ClassOf(t)
+    IN CASE cls = "Kronecker" -> \A i \in 1..Len(u.a): (IsSq(u.a[i]) /\ IsPD(Denote(u.a[i])) /\ CholDomain(u.a[i]))
+         [] cls = "BlockDiag" -> \A i \in 1..Len(u.a): CholDomain(u.a[i])
+         [] OTHER -> TRUE
+IsPDTree(t) == IsSq(t) /\ IsPD(Denote(t))
+CholCompleteAt(t) == (IsPDTree(t) /\ CholDomain(t)) => LET r == CholRule(t) IN OK(r) /\ AllDef(r.val)
+\* FAILS (known finding: a positive definite Kronecker product can have factors that are not, e.g. (-A) (x) (-B))
+CholCompleteEverywhereAt(t) == IsPDTree(t) => LET r == CholRule(t) IN OK(r) /\ AllDef(r.val)
+=============================================================================
